@@ -69,8 +69,9 @@ func (c *counter) Add(d float64)              { c.v += d }
 // ---- c09.copy: copyBuffer on scripted reader/writer ----
 
 type copyIn struct {
-	Reads  []segJ `json:"reads"`
-	Writes []wJ   `json:"writes"`
+	Reads    []segJ `json:"reads"`
+	Writes   []wJ   `json:"writes"`
+	Coalesce bool   `json:"coalesce,omitempty"` // the reader returns its last bytes together with EOF/error
 }
 
 type copyOut struct {
@@ -105,6 +106,7 @@ func runCopy(raw json.RawMessage) (interface{}, error) {
 		evs = append(evs, rEv{1, nil}) // an exhausted script reads as EOF (as in the model)
 	}
 	src := newScriptConn(evs, nil, nil)
+	src.coalesce = in.Coalesce
 	src.release()
 	dst := newScriptConn(nil, nil, nil)
 	dst.wscript = ws
@@ -149,7 +151,7 @@ func genReads(r *hx.Rand) []segJ {
 }
 
 func genCopy(r *hx.Rand, i int) interface{} {
-	in := copyIn{Reads: genReads(r), Writes: []wJ{}}
+	in := copyIn{Reads: genReads(r), Writes: []wJ{}, Coalesce: r.Chance(1, 4)}
 	if r.Chance(1, 3) {
 		k := r.Intn(5)
 		for j := 0; j < k; j++ {
@@ -359,6 +361,8 @@ func init() {
 	hx.Register(&hx.Stream{Name: "c09.copy", Gen: genCopy, Run: runCopy, Corpus: []interface{}{
 		copyIn{Reads: []segJ{}, Writes: []wJ{}},
 		copyIn{Reads: []segJ{{C: "0102"}, {C: "03"}, {E: "eof"}}, Writes: []wJ{}},
+		copyIn{Reads: []segJ{{C: "0102"}, {C: "03"}, {E: "eof"}}, Writes: []wJ{}, Coalesce: true},
+		copyIn{Reads: []segJ{{C: "0102"}, {E: "err"}}, Writes: []wJ{}, Coalesce: true},
 		copyIn{Reads: []segJ{{C: "0102"}, {E: "err"}}, Writes: []wJ{}},
 		copyIn{Reads: []segJ{{C: "01020304"}, {C: "05"}}, Writes: []wJ{{"short", 3}}},
 		copyIn{Reads: []segJ{{C: "01020304"}, {C: "05"}}, Writes: []wJ{{"full", 0}, {"fail", 0}}},
